@@ -8,6 +8,7 @@
 import NiftyVerif.Gen.ModeTables
 import NiftyVerif.Model.OpAlgebra
 import NiftyVerif.Lemmas.OpAlgebra
+import NiftyVerif.Lemmas.OpAlgebraCap
 
 namespace NiftyVerif.C01
 open NiftyVerif.Gen.ModeTables NiftyVerif.OpAlgebra
@@ -78,6 +79,83 @@ theorem diag_kind_specs :
     (∀ b, b < 4 → diagApplyKind.getD b (false, false) = (decide (b &&& 1 = 1), decide (b &&& 2 = 2))) ∧
     (∀ b, b < 4 → diagActualKind.getD b (false, false) = (decide (b &&& 1 = 1), decide (b &&& 2 = 2))) := by decide
 
+
+/-! ### Part 1b — capability of composite expressions -/
+
+section capability
+variable {K D : Type}
+
+/-- the property's own rule for "mode `s` is advertised": every constituent provides the mode that `s` requires -/
+def Requires : Op K D → Nat → Bool
+  | .leaf _ c _ _, s => (c &&& (1 <<< s)) != 0
+  | .scaling _ _ _, _ => true
+  | .diag _ _ _ _, _ => true
+  | .idEntry _, _ => true
+  | .blockdiag _ ents, s => (ents.map (Requires · s)).all id
+  | .null _ _, s => (s &&& 2) == 0
+  | .adapter o t, s => Requires o (s ^^^ t)
+  | .chain ops, s => (ops.map (Requires · s)).all id
+  | .sum ops _, s => ((s &&& 2) == 0) && (ops.map (Requires · s)).all id
+  | .sandwich _ _ op, s => Requires op s
+  | .invEnabler o, s => Requires o s || Requires o (s ^^^ 2)
+
+/-- **capability = the property's rule**: an expression advertises mode `s` exactly when all of its constituents provide the
+    modes that `s` requires (adapters permute by xor, chains/block-diagonals intersect, sums additionally only forward/adjoint,
+    InversionEnabler closes under inverse) -/
+theorem cap_spec (e : Op K D) (h : WF e = true) (s : Nat) (hs : s < 4) :
+    (((cap e) &&& (1 <<< s)) != 0) = Requires e s := by
+  induction e using cap.induct generalizing s with
+  | case1 id c d t => simp [cap, Requires]
+  | case2 => simp [cap, Requires, (consts_bit s hs).1]
+  | case3 => simp [cap, Requires, (consts_bit s hs).1]
+  | case4 => simp [cap, Requires, (consts_bit s hs).1]
+  | case5 dm ents ih =>
+    have hwf : ∀ o ∈ ents, WF o = true := by
+      simpa [WF, List.all_map, List.all_eq_true] using h
+    simp only [cap, Requires]
+    rw [foldl_and_bit _ _ _ hs (consts_bit 0 (by decide)).2.2.2.2.1
+      (by intro c hc; simp only [List.mem_map] at hc; obtain ⟨o, ho, rfl⟩ := hc; exact cap_lt o (hwf o ho)),
+      (consts_bit s hs).1, Bool.true_and, List.all_map]
+    rw [show (ents.map (Requires · s)).all id = ents.all (fun o => Requires o s) by simp [List.all_map]]
+    apply all_congr_mem
+    intro o ho
+    exact ih o ho (hwf o ho) s hs
+  | case6 d t => simp [cap, Requires, (consts_bit s hs).2.2.2.1]
+  | case7 o t ih =>
+    simp only [WF, Bool.and_eq_true, decide_eq_true_eq] at h
+    simp only [cap, Requires]
+    rw [adapterCap_bit t h.1 _ (cap_lt o h.2) s hs]
+    exact ih h.2 _ (xor_lt s hs t h.1)
+  | case8 ops ih =>
+    have hwf : ∀ o ∈ ops, WF o = true := by
+      simpa [WF, List.all_map, List.all_eq_true] using h
+    simp only [cap, Requires]
+    rw [foldl_and_bit _ _ _ hs (consts_bit 0 (by decide)).2.2.2.2.2.1
+      (by intro c hc; simp only [List.mem_map] at hc; obtain ⟨o, ho, rfl⟩ := hc; exact cap_lt o (hwf o ho)),
+      (consts_bit s hs).2.1, Bool.true_and, List.all_map]
+    rw [show (ops.map (Requires · s)).all id = ops.all (fun o => Requires o s) by simp [List.all_map]]
+    apply all_congr_mem
+    intro o ho
+    exact ih o ho (hwf o ho) s hs
+  | case9 ops neg ih =>
+    have hwf : ∀ o ∈ ops, WF o = true := by
+      simpa [WF, List.all_map, List.all_eq_true] using h
+    simp only [cap, Requires]
+    rw [foldl_and_bit _ _ _ hs (consts_bit 0 (by decide)).2.2.2.2.2.2.1
+      (by intro c hc; simp only [List.mem_map] at hc; obtain ⟨o, ho, rfl⟩ := hc; exact cap_lt o (hwf o ho)),
+      (consts_bit s hs).2.2.1, List.all_map]
+    rw [show (ops.map (Requires · s)).all id = ops.all (fun o => Requires o s) by simp [List.all_map]]
+    congr 1
+    apply all_congr_mem
+    intro o ho
+    exact ih o ho (hwf o ho) s hs
+  | case10 b c op ih => simp only [cap, Requires]; exact ih (by simpa [WF] using h) s hs
+  | case11 o ih =>
+    have hw : WF o = true := by simpa [WF] using h
+    simp only [cap, Requires]
+    rw [invCap_bit _ (cap_lt o hw) s hs, ih hw s hs, ih hw _ (xor_lt s hs 2 (by decide))]
+
+end capability
 
 /-! ### Part 2 — dense action of the operator classes (Mathlib matrices over any star field, any index type)
 
